@@ -10,13 +10,17 @@ PROP = "C01"
 
 def run(tier: str, seed: int, replay=None) -> int:
     return eqlcheck.run_check(
-        PROP, tier, seed, replay, profile="c01+quant", mode="set", n_quick=3000, n_thorough=40000,
+        PROP, tier, seed, replay, profile="c01+quant", mode="set", n_quick=3000, n_thorough=120000,
         targets=["Props/C01.vo"],
         in_fragment=lambda c: eqlcheck.FRAG.get(eqlcheck.case_key(c), False),
         modelled_classes=["K_notunion", "K_selprod", "K_emptydom", "K_quant_nofalse", "K_forall_open", "K_quant_shadow"],
         trusted=[
-            "hand-written model Eql/Eval.v of symbolic.py (Variable/Literal/Attribute/Comparator/AND/ElseIf/Union/Not, "
-            "QueryObjectDescriptor selection product) and of optimize_or (mk_or), tied by differential execution through the public API",
+            "hand-written model Eql/Eval.v of symbolic.py (Variable/Literal/Attribute/Comparator/AND/ElseIf/Union/Not/Exists/ForAll, "
+            "QueryObjectDescriptor selection product), tied by differential execution through the public API; for the logical operators "
+            "and the decisions of or_/not_ the tie is additionally by translation: translator/t_symeval.py (generator bodies of "
+            "Not/AND/OR/Union/ElseIf -> Gen/SymbolicEval.v, proved equal to the model in Eql/EvalSourceProofs.v) and "
+            "translator/t_symbolic.py (optimize_or, the _invert_ table, not_/and_/or_, chained_logic -> Gen/SymbolicDecisions.v, "
+            "proved equal to mk_or / mk_not in Eql/DecisionsProofs.v), regenerated on every run",
             "harness/eqlgen.py (case generator, world classes P/T, Gallina emission, canonicaliser) and harness/eqlcheck.py",
             "atomic comparison semantics apply_op / py_eq (Eql/Syntax.v) shared by model and Spec: Python ==, <, contains on ints, "
             "identity-compared objects, value-equal twins, lists compared as sets",
